@@ -17,6 +17,8 @@ CONSTANTS Configs     \* set of records [n, cap, scen, k]:
                       \*   cap  queue capacity
                       \*   scen "abort" | "ends" | "setsize" | "none"
                       \*   k    argument of the controller's setFileSize in scenario "setsize"
+                      \*   spur number of spurious wake-ups the scheduler may inject (a
+                      \*        condition_variable may wake without notify; predicate loops must cope)
 
 Threads == {"P", "C", "K"}
 
@@ -27,10 +29,11 @@ VARIABLES cfg,        \* the configuration of this behaviour (chosen in Init, ne
           nw,         \* objects written so far by P
           tmp,        \* P's local copy of tellp() (scenario "ends")
           got,        \* what the consumer was handed, in order (0 = nullptr)
+          spur,       \* spurious wake-ups injected so far
           act         \* ghost: thread that took the last step
 
-vars == <<cfg, oq, pc, blk, nw, tmp, got, act>>
-View == <<cfg, oq, pc, blk, nw, tmp, got>>
+vars == <<cfg, oq, pc, blk, nw, tmp, got, spur, act>>
+View == <<cfg, oq, pc, blk, nw, tmp, got, spur>>
 
 N == cfg.n
 Cap == cfg.cap
@@ -41,11 +44,11 @@ Init == /\ cfg \in Configs
         /\ oq = OQSetCap(OQInit, cfg.cap)
         /\ pc = [t \in Threads |-> "start"]
         /\ blk = [t \in Threads |-> ""]
-        /\ nw = 0 /\ tmp = 0 /\ got = <<>>
+        /\ nw = 0 /\ tmp = 0 /\ got = <<>> /\ spur = 0
         /\ act = [op |-> "init", arg |-> cfg]
 
 Notify(b, cvs) == [t \in Threads |-> IF b[t] \in cvs THEN "" ELSE b[t]]
-Step(t) == act' = [op |-> t, arg |-> 0] /\ UNCHANGED cfg
+Step(t) == act' = [op |-> t, arg |-> 0] /\ UNCHANGED <<cfg, spur>>
 Ready(t, l) == pc[t] = l /\ blk[t] = ""
 
 (* ---- producer ---- *)
@@ -97,7 +100,15 @@ K_Op == /\ Ready("K", "op") /\ Step("K")
         /\ pc' = [pc EXCEPT !["K"] = "done"]
         /\ UNCHANGED <<nw, tmp, got>>
 
-Next == P_Start \/ P_Write \/ P_Tellp \/ P_SetEnd \/ C_Start \/ C_Read \/ K_Start \/ K_Op
+(* ---- a waiter wakes up although nobody notified it; it re-evaluates its predicate next ---- *)
+Spurious == \E t \in {"P", "C"} :
+              /\ spur < cfg.spur /\ blk[t] # ""
+              /\ blk' = [blk EXCEPT ![t] = ""]
+              /\ spur' = spur + 1
+              /\ act' = [op |-> "spur", arg |-> t]
+              /\ UNCHANGED <<cfg, oq, pc, nw, tmp, got>>
+
+Next == Spurious \/ P_Start \/ P_Write \/ P_Tellp \/ P_SetEnd \/ C_Start \/ C_Read \/ K_Start \/ K_Op
 Fair == /\ WF_vars(P_Start \/ P_Write \/ P_Tellp \/ P_SetEnd)
         /\ WF_vars(C_Start \/ C_Read)
         /\ WF_vars(K_Start \/ K_Op)
